@@ -7,15 +7,16 @@ def trigger(scr):
     return len(kinds) >= 3
 
 def run(ctx):
-    if not hc.ensure_builds(ctx, ('default', 'alt')): hc.finish(ctx, 'builds failed')
+    if not hc.ensure_builds(ctx, ('default', 'alt'), optional=('alt',)): hc.finish(ctx, 'builds failed')
     n = 500 if ctx.quick() else 10000
     for cfg, k in (('default', n), ('alt', max(60, n // 5))):
+        if cfg in ctx.unbuilt: continue
         H, impl, model, dis, hits = hc.run_profile(ctx, profiles.C13, k, config=cfg, trigger=trigger, claims=lambda op, a, b: True)
         if hits: break
     import golden, objcheck
     golden.check(ctx)
     objcheck.wire(ctx, profiles.C13, 30 if ctx.quick() else 300, 'default')
-    objcheck.wire(ctx, profiles.C13, 10 if ctx.quick() else 100, 'alt')
+    if 'alt' not in ctx.unbuilt: objcheck.wire(ctx, profiles.C13, 10 if ctx.quick() else 100, 'alt')
     hc.vm_crosscheck(ctx, H, model)
     hc.finish(ctx, f'{n} (+{max(60, n // 5)} in the p-256/ml-kem-768 build) random histories with serialization round trips injected at random steps (the deserialized object replaces the original for the rest of the history), '
               'multi-byte names; every dump checks serialize().len() == length(); golden vectors written by the pinned release are deserialized and used; non-trivial = round trips of at least 3 object kinds')
